@@ -21,7 +21,7 @@ Proof. exact ParseProofs.parse_denotes. Qed.
 Print Assumptions parse_denotes.
 
 (** non-vacuity: both branches are inhabited *)
-Example accepted : match new_frameset (s2b "10-1y3, 1-10:-3 #") with Ok f => fs_frames f = [9;8;6;5;3;2;1;4;7;10] | _ => False end.
+Example accepted : match new_frameset (s2b "10-1y3, 1-10:-3 #") with Ok f => fs_frames f = [9;8;6;5;3;2;1;4;7;10]%Z | _ => False end.
 Proof. vm_compute. reflexivity. Qed.
 Example rejected : spec_frames (s2b "1-5x0") = None /\ spec_frames (s2b "99999999999999999999") = None /\ spec_frames (s2b "1,,2") = None.
 Proof. vm_compute. repeat split. Qed.
